@@ -14,7 +14,7 @@ import random
 
 from .. import common, identlib
 from ..gen import cfggen, edits
-from ..translate import hashflags
+from ..translate import hashflags, argflags
 
 PROP = "C14"
 MODULES = ["XpmVerif.Properties.C14"]
@@ -22,6 +22,8 @@ MODULES = ["XpmVerif.Properties.C14"]
 
 def prove(ctx):
     msgs = [hashflags.generate(common.REPO, common.LEAN, probe=identlib.loop_flag_probe(ctx))]
+    msgs.append(argflags.generate(common.REPO, common.LEAN))   # Generated/ArgFlags.lean: the driver derives the argument flags with it
+    ctx.notes.append(f"translator(argflags): {msgs[-1][1]}")
     common.check_proofs(ctx, MODULES, translate_msgs=msgs)
 
 
